@@ -26,8 +26,77 @@ def _fatal_pred(prefixes):
     return lambda tag: tag.startswith(prefixes)
 
 
+def _dead_job(job, status, message):
+    return {"status": status, "message": "%s: %s" % (job["name"], message),
+            "paths": 0, "paths_ok": 0, "validated": 0, "failures": [], "failures_total": 0,
+            "stats": {}, "samples": [], "covers": {}, "exhaustive": False, "nontrivial": 0,
+            "functions": [], "paths_assume": 0, "paths_noteval": 0, "noteval_reasons": {},
+            "query_log": [], "job": job["name"], "harness": job["harness"],
+            "params": job["params"], "wall_s": 0.0}
+
+
 def run_job(job):
-    """Executed in a worker process."""
+    """Executed in a worker process: the job itself runs in a forked child under a hard
+    wall-clock limit (2 x its deadline + 600 s), so that a solver call that ignores its
+    timeout, or a crash inside the solver library, costs one inconclusive job instead of
+    a check that never returns."""
+    import pickle
+    import select
+    import signal
+    from . import harnesses        # noqa: F401  (imported before the fork: children start warm)
+    from . import explore          # noqa: F401
+    if os.environ.get("VERIF_NO_ISOLATION"):
+        return _run_job(job)
+    limit = 2 * job.get("deadline", 600) + 600
+    t0 = time.time()
+    rfd, wfd = os.pipe()
+    pid = os.fork()
+    if pid == 0:
+        code = 0
+        try:
+            os.close(rfd)
+            d = _run_job(job)
+            with os.fdopen(wfd, "wb") as f:
+                pickle.dump(d, f)
+        except BaseException:      # noqa: BLE001
+            code = 3
+        finally:
+            os._exit(code)
+    os.close(wfd)
+    chunks = []
+    timed_out = False
+    try:
+        while True:
+            left = t0 + limit - time.time()
+            if left <= 0:
+                timed_out = True
+                break
+            r, _, _ = select.select([rfd], [], [], min(left, 5.0))
+            if r:
+                b = os.read(rfd, 1 << 20)
+                if not b:
+                    break
+                chunks.append(b)
+    finally:
+        os.close(rfd)
+    if timed_out:
+        try:
+            os.kill(pid, signal.SIGKILL)
+        except ProcessLookupError:
+            pass
+    _, st = os.waitpid(pid, 0)
+    if timed_out:
+        d = _dead_job(job, "inconclusive", "hard wall-clock limit of %d s exceeded; job killed" % limit)
+    else:
+        try:
+            d = pickle.loads(b"".join(chunks))
+        except Exception as e:     # noqa: BLE001
+            d = _dead_job(job, "harness-error", "worker process died (wait status %d): %r" % (st, e))
+    d["wall_s"] = time.time() - t0
+    return d
+
+
+def _run_job(job):
     from . import harnesses
     from .explore import explore
     t0 = time.time()
@@ -149,6 +218,10 @@ def main(argv=None):
         j.setdefault("fatal", spec["fatal"])
         if tier == "thorough":
             j["log_queries"] = True
+        else:
+            # quick tier: the slowest job takes under a minute on the unchanged tree; a changed
+            # tree that makes the encoding hard must still get an answer in bounded time
+            j["deadline"] = min(j.get("deadline", 600), 600)
     # big jobs first; the seed only perturbs the order
     jobs.sort(key=lambda j: (-j.get("weight", 1), hashlib.md5((j["name"] + str(seed)).encode()).hexdigest()))
     t0 = time.time()
